@@ -8,6 +8,8 @@ ENVIRONMENT STUBS (part of every claim that uses them):
 * make_app       real tornado.web.Application with request logging switched off
                  (log_function no-op) so that "%s" formatting of symbolic values in the access
                  log does not realise them.
+* FixedTime     tornado.web.time / tornado.httputil.time replaced by a settable constant clock
+                 (Date header / request start time are not under test).
 * QuietMixin     overrides the documented hook RequestHandler.log_exception with a no-op
                  (logging is not part of the observed response).
 """
@@ -17,6 +19,27 @@ from tornado import httputil, web
 from tornado.concurrent import Future
 
 warnings.simplefilter("ignore", DeprecationWarning)
+
+
+class FixedTime:
+    """Stand-in for the `time` module inside tornado.web / tornado.httputil: time() is a settable
+    value (CrossHair models the real time.time() as a fresh symbolic float on every call, which makes
+    the Date header formatting explode).  Everything else delegates to the real module."""
+
+    def __init__(self, now=1600000000):
+        self.now = now
+
+    def time(self):
+        return self.now
+
+    def __getattr__(self, k):
+        import time as _t
+        return getattr(_t, k)
+
+
+CLOCK = FixedTime()
+web.time = CLOCK
+httputil.time = CLOCK
 
 
 def _done():
@@ -83,7 +106,7 @@ def make_request(method, uri, headers=None, body=b"", version="HTTP/1.1", conn=N
     h = httputil.HTTPHeaders()
     h["Host"] = "example.com"
     for k, v in (headers or []):
-        h.add(k, v)
+        h[k] = v          # no validation: any str (superset of what the HTTP/1 parser delivers)
     req = httputil.HTTPServerRequest(
         headers=h, body=body, connection=conn,
         start_line=httputil.RequestStartLine(method, uri, version))
